@@ -8,5 +8,11 @@ TinySlices == <<
      [s \in {"api", "web"} |-> IF s = "web" THEN {"two", "none"} ELSE {"local", "udp"}],
      {2}, [c \in {"large", "small"} |-> IF c = "large" THEN <<List(<<QLarge>>)>> ELSE <<List(<<QSmall>>)>>]) >>
 
+\* one service, one placement, a compute profile with two / three storage attributes written out of key order:
+\* the only thing a run can reorder is that nested attribute mapping (negative control MC_attrorder.cfg)
+AttrSlices == <<
+  Sl("U", <<"web">>, <<"large">>, <<"east">>, [s \in {"web"} |-> {{}}], [s \in {"web"} |-> {"http"}], {1},
+     [c \in {"large"} |-> <<List(<<Q(CpuM(250), "", B(128, "Mi"), B(1, "Gi"), SA2u), Q(CpuM(250), "", B(128, "Mi"), B(1, "Gi"), SA3u)>>)>>]) >>
+
 ASSUME ExportDocs(Slices)
 =============================================================================
